@@ -218,6 +218,10 @@ func ValidateTokenExchangeRequest(
 		return nil, nil, oidc.ErrInvalidRequest().WithDescription("subject_token_type is not supported")
 	}
 
+	if oidcTokenExchangeRequest.ActorToken != "" && oidcTokenExchangeRequest.ActorTokenType == "" {
+		return nil, nil, oidc.ErrInvalidRequest().WithDescription("actor_token_type missing")
+	}
+
 	if oidcTokenExchangeRequest.ActorTokenType != "" && !oidcTokenExchangeRequest.ActorTokenType.IsSupported() {
 		return nil, nil, oidc.ErrInvalidRequest().WithDescription("actor_token_type is not supported")
 	}
